@@ -18,16 +18,16 @@ impl Collector for Custom {
 }
 
 #[derive(Clone)]
-enum AnyColl { C(Counter), IC(IntCounter), G(Gauge), IG(IntGauge), H(Histogram), P(PullingGauge), CV(CounterVec), GV(GaugeVec), X(Custom) }
+pub(crate) enum AnyColl { C(Counter), IC(IntCounter), G(Gauge), IG(IntGauge), H(Histogram), P(PullingGauge), CV(CounterVec), GV(GaugeVec), X(Custom) }
 impl AnyColl {
-    fn boxed(&self) -> Box<dyn Collector> { match self.clone() { AnyColl::C(x) => Box::new(x), AnyColl::IC(x) => Box::new(x), AnyColl::G(x) => Box::new(x), AnyColl::IG(x) => Box::new(x), AnyColl::H(x) => Box::new(x), AnyColl::P(x) => Box::new(x), AnyColl::CV(x) => Box::new(x), AnyColl::GV(x) => Box::new(x), AnyColl::X(x) => Box::new(x) } }
+    pub(crate) fn boxed(&self) -> Box<dyn Collector> { match self.clone() { AnyColl::C(x) => Box::new(x), AnyColl::IC(x) => Box::new(x), AnyColl::G(x) => Box::new(x), AnyColl::IG(x) => Box::new(x), AnyColl::H(x) => Box::new(x), AnyColl::P(x) => Box::new(x), AnyColl::CV(x) => Box::new(x), AnyColl::GV(x) => Box::new(x), AnyColl::X(x) => Box::new(x) } }
 }
 
 /// structural view of a descriptor (what the property talks about)
 #[derive(Clone, PartialEq, Eq, Debug)]
-struct SDesc { fq: String, const_vals: Vec<String>, help: String, const_names: Vec<String>, var_names: Vec<String> }
+pub(crate) struct SDesc { fq: String, const_vals: Vec<String>, help: String, const_names: Vec<String>, var_names: Vec<String> }
 
-struct Def { coll: AnyColl, sdescs: Vec<SDesc>, kind: String, all_label_names: Vec<Vec<String>> }
+pub(crate) struct Def { pub(crate) coll: AnyColl, sdescs: Vec<SDesc>, pub(crate) kind: String, all_label_names: Vec<Vec<String>> }
 
 fn opts_of(name: &str, help: &str, consts: &[(String, String)]) -> Opts { let mut o = Opts::new(name, help); for (k, v) in consts { o = o.const_label(k.clone(), v.clone()); } o }
 
@@ -37,7 +37,7 @@ fn sdesc(fq: &str, help: &str, consts: &[(String, String)], vars: &[String]) -> 
     SDesc { fq: fq.into(), const_vals: c.iter().map(|x| x.1.clone()).collect(), help: help.into(), const_names: c.iter().map(|x| x.0.clone()).collect(), var_names: v }
 }
 
-fn build(parts: &[&str]) -> Option<Def> {
+pub(crate) fn build(parts: &[&str]) -> Option<Def> {
     let kind = field(parts, "kind")?;
     let name = unhex_list(field(parts, "name")?)[0].clone(); let help = unhex_list(field(parts, "help")?)[0].clone();
     let consts = parse_pairs(field(parts, "consts")?); let vars = unhex_list(field(parts, "vars")?);
